@@ -35,6 +35,7 @@ Sift Config:
 """
 
 import sys
+import copy
 import logging
 import inspect
 import functools
@@ -1641,8 +1642,7 @@ class SiftConfig(collections.abc.MutableMapping):
 
     def _get_yamlsafe_dict(self):
         """Return copy of internal store with values prepped for saving into yaml format."""
-        conf = self.store.copy()
-        conf = _array_or_tuple_to_list(conf)
+        conf = _array_or_tuple_to_list(copy.deepcopy(self.store))
         return [{'sift_type': self.sift_type}, conf]
 
     def to_yaml_text(self):
